@@ -74,13 +74,13 @@ theorem schedule_prefix (l1 l2 : List Drive) (s : SimSt σ ω) (h : (l1.map Driv
 /-- `setup` of a valid script followed by any calls on the same object observes the same values from any two
 non-crashed states of the process (any earlier simulations, finalized or not) -/
 theorem init_ignores_past (w1 w2 : World σ ω) (h1 : w1.crashed = false) (h2 : w2.crashed = false)
-    (sc : Setup σ ω) (hr : sc.raises = false) (rest : List (Call σ ω)) :
+    (sc : Setup σ ω) (hr : sc.raises = false) (hi : sc.initReturns = true) (rest : List (Call σ ω)) :
     (w1.runHist ((Call.setup sc :: rest).map fun c => (Obj.A, c))).2 =
     (w2.runHist ((Call.setup sc :: rest).map fun c => (Obj.A, c))).2 := by
   simp only [List.map_cons, runHist]
-  have hrel := setup_rel w1 w2 sc h1 h2 hr
+  have hrel := setup_rel w1 w2 sc h1 h2 hr hi
   have h0 : (w1.call .A (.setup sc)).2 = (w2.call .A (.setup sc)).2 := by
-    rw [call_setup_ok w1 _ _ h1 hr, call_setup_ok w2 _ _ h2 hr]
+    rw [call_setup_ok w1 _ _ h1 hr hi, call_setup_ok w2 _ _ h2 hr hi]
   rw [h0, runHist_rel rest _ _ hrel]
 
 /-- (G8) every data member of the algorithm objects is assigned in `Init` / its helpers / `AlgorithmSpecificInit`,
